@@ -300,7 +300,49 @@ def judge_vertex_shape(chk, it, rcirc):
                 chk.violation(name, dict(desc, center=np.array(b.center).tolist(), radius=float(b.radius), exact_radius=rr))
             radius_getter(chk, sh, name, float(b.radius), desc)
     chk.sample(dict(cls=type(sh).__name__, kind=it["kind"], nverts=len(V), cyclic=it["cyc"], tangential=it["tan"]))
+    solver_retry_probe(chk, sh, dim, V, desc)
     balls_move_with_the_shape(chk, sh, dim, size, desc)
+
+
+def solver_retry_probe(chk, sh, dim, V, desc):
+    """The library re-tries the third-party solver on a randomly rotated copy when it raises LinAlgError, and maps the centre back.  That path
+    is taken at random in ordinary use; here it is FORCED (the solver is wrapped, inside the harness, to raise on its first two calls), so that
+    what the library does around the solver is judged every time.  A failing ball is attributed to the recorded solver finding only if a
+    repeated forced evaluation passes the exact certificate."""
+    try:
+        import miniball
+    except Exception:  # noqa: BLE001
+        return
+    name = ballname(dim, "minimal_bounding")
+    real = miniball.get_bounding_ball
+
+    def forced():
+        calls = [0]
+
+        def flaky(pts, *a, **k):
+            calls[0] += 1
+            if calls[0] <= 2:
+                raise np.linalg.LinAlgError("forced by the harness")
+            return real(pts, *a, **k)
+        miniball.get_bounding_ball = flaky
+        try:
+            return C.excname(lambda: getattr(sh, name))
+        finally:
+            miniball.get_bounding_ball = real
+    verdicts = []
+    for _ in range(4):
+        st, b = forced()
+        if st != "ok":
+            verdicts.append((False, "raised " + st)); continue
+        verdicts.append(miniball_certificate(V, np.array(b.center, float), float(b.radius)))
+        if verdicts[-1][0]:
+            break
+    chk.count("solver-retry-forced")
+    if not verdicts[-1][0]:
+        chk.violation(name + "-after-solver-retry", dict(desc, why=verdicts[0][1], forced_evaluations=len(verdicts),
+                                                         what="with the solver forced to fail twice the re-tried ball is wrong every time"))
+    elif len(verdicts) > 1 and chk.is_known("miniball-randomised-solver"):
+        chk.count("known:miniball(forced retry re-evaluation agrees)")
 
 
 def balls_move_with_the_shape(chk, sh, dim, size, desc):
